@@ -997,8 +997,7 @@ theorem discard_rest_done (s : RS) : FrameDone (discardN (↑s.sz) s).2 := by
 theorem openBatch_shape (expired : Bool) (v : Nat) (offset : Int) (s : RS) :
     Adv s (openBatch expired v offset s).rs ∧
     (((openBatch expired v offset s).hasMsgs = true ∧ (openBatch expired v offset s).empty = false) ∨
-     ((openBatch expired v offset s).empty = true ∧
-        ∃ c, runSteps (fetchHeader v) { ver := v } s = (.ok c, (openBatch expired v offset s).rs) ∧ c.hwm = offset) ∨
+     ((openBatch expired v offset s).empty = true ∧ FrameDone (openBatch expired v offset s).rs) ∨
      ((openBatch expired v offset s).hasMsgs = false ∧ ∃ e, (openBatch expired v offset s).err = some e ∧
         (keeps (some e) = true → FrameDone (openBatch expired v offset s).rs))) := by
   have hh := runSteps_adv (fetchHeader v) { ver := v } s
@@ -1010,7 +1009,16 @@ theorem openBatch_shape (expired : Bool) (v : Nat) (offset : Int) (s : RS) :
     | ok c =>
       simp only
       split
-      · next hw => exact ⟨hh, Or.inr (Or.inl ⟨rfl, c, rfl, hw⟩)⟩
+      · -- the watermark shortcut: whatever the response still carries is skipped at once
+        have hd := conserves_discardN (↑s1.sz) s1
+        have hdone := discard_rest_done s1
+        split
+        · cases hx : discardN (↑s1.sz) s1 with
+          | mk r2 s2 =>
+            rw [hx] at hd hdone
+            cases r2 <;> exact ⟨Adv.trans hh hd, Or.inr (Or.inl ⟨rfl, hdone⟩)⟩
+        · rename_i hz
+          exact ⟨hh, Or.inr (Or.inl ⟨rfl, Or.inl (by show s1.sz = 0; omega)⟩)⟩
       · have h2 := conserves_readHeader01 s1
         cases hd : readHeader01 s1 with
         | mk r2 s2 =>
@@ -1068,10 +1076,10 @@ theorem openBatch_shape (expired : Bool) (v : Nat) (offset : Int) (s : RS) :
 and every sequence of `ReadMessage` / `Read(buffer of any capacity)` calls (including none) before `Close`:
 the bytes consumed are charged to the frame one for one, and IF THE CONN IS KEPT the frame has been consumed to its
 last byte (or the stream has ended) — never a kept conn with part of the response still in the stream.
-`hwf`: a response whose high watermark equals the fetch offset carries an empty message set (the Go code then
-takes the `empty` reader, which reads nothing; see C11 `fetch_at_watermark_counterexample`). -/
-theorem batch_close_consumes_frame (expired : Bool) (v : Nat) (offset : Int) (fuel : Nat) (ops : List Op) (s : RS)
-    (hwf : ∀ c s1, runSteps (fetchHeader v) { ver := v } s = (.ok c, s1) → c.hwm = offset → s1.sz = 0) :
+No side condition on the response any more: until /repo 5ef8978 a response at the high watermark had to carry an
+empty message set (the `empty` reader reads nothing, C11 `fetch_at_watermark_counterexample`); `ReadBatchWith` now
+skips such a set itself and the theorem holds for every response. -/
+theorem batch_close_consumes_frame (expired : Bool) (v : Nat) (offset : Int) (fuel : Nat) (ops : List Op) (s : RS) :
     Adv s (fetchBatch expired v offset fuel ops s).rs ∧
     ((fetchBatch expired v offset fuel ops s).kept = true → FrameDone (fetchBatch expired v offset fuel ops s).rs) := by
   have ho := openBatch_shape expired v offset s
@@ -1089,7 +1097,7 @@ theorem batch_close_consumes_frame (expired : Bool) (v : Nat) (offset : Int) (fu
     exact Adv.trans ho.1 (Adv.trans hops.1 hcl)
   · intro hkept
     simp only [fetchBatch] at hkept ⊢
-    rcases ho.2 with ⟨hm, he⟩ | ⟨he, c, hc, hw⟩ | ⟨hm, e, hee, hdone⟩
+    rcases ho.2 with ⟨hm, he⟩ | ⟨he, hfd⟩ | ⟨hm, e, hee, hdone⟩
     · -- a real reader: Close discards whatever is left
       unfold batchClose
       simp only [hops.2.1, hops.2.2, hm, he, Bool.not_false, Bool.and_self, ↓reduceIte]
@@ -1098,7 +1106,7 @@ theorem batch_close_consumes_frame (expired : Bool) (v : Nat) (offset : Int) (fu
       have hrs := runOps_empty_rs expired fuel ops _ he
       unfold batchClose
       simp only [hops.2.2, he, Bool.not_true, Bool.and_false, Bool.false_eq_true, ↓reduceIte, hrs]
-      exact Or.inl (hwf c _ hc hw)
+      exact hfd
     · -- the header failed: the Batch is born with an error and never reads
       have hfix := runOps_err_fixed expired fuel ops _ e hee
       rw [hfix] at hk hkept ⊢
@@ -1122,10 +1130,9 @@ theorem finish_without_failure_consumes_frame (o : OpSpec) (v : Nat) (topic : By
 
 /-- in the kept case with the frame on the stream: what is left is exactly what followed the frame -/
 theorem batch_close_leaves_next_frame (expired : Bool) (v : Nat) (offset : Int) (fuel : Nat) (ops : List Op) (s : RS)
-    (hwf : ∀ c s1, runSteps (fetchHeader v) { ver := v } s = (.ok c, s1) → c.hwm = offset → s1.sz = 0)
     (hz : (fetchBatch expired v offset fuel ops s).rs.sz = 0) :
     (fetchBatch expired v offset fuel ops s).rs.inp = s.inp.drop s.sz :=
-  ((batch_close_consumes_frame expired v offset fuel ops s hwf).1.consumed_all hz).2
+  ((batch_close_consumes_frame expired v offset fuel ops s).1.consumed_all hz).2
 
 end BatchBytes
 
@@ -1333,8 +1340,60 @@ def closeIdleConnsModelRow (_ : List String) : List String :=
       (if s1.closedGroups.contains 1 then ["markClosed"] else []) ++ ["unlock"] ++
       (if (s1.conns 1).st == .closing then ["closeConn"] else [])
 
+/-- (*Conn).ApiVersions uses the multiplexer without `do`: the read lock taken by waitResponse is released by a
+deferred unlock, and no outcome of the body closes the conn (the hook reports it as `finish ok`) -/
+def apiVersionsModelRow (sc : List String) : List String :=
+  if flag sc "requestFailed" then ["doRequest", "return"]
+  else if flag sc "waitFailed" then ["doRequest", "waitResponse", "return"]
+  else
+    match run [⟨1, 0⟩] [.write 0 true 1, .take 1] with
+    | none => ["model: no such state"]
+    | some s0 =>
+      match step s0 (.finish 1 .ok) with
+      | none => ["model: event not enabled"]
+      | some s1 =>
+        ["doRequest", "waitResponse"] ++ (if s0.rlock.isSome && s1.rlock.isNone then ["defer:unlock"] else []) ++
+        ["read"] ++ (if s1.closed then ["close"] else []) ++ ["return"]
+
+/-- a v2 fetch response body: header (watermark `hwm`) and one empty magic-1 message -/
+def sampleFetchBody (hwm : UInt8) : KV.Bytes :=
+  [0,0,0,0, 0,0,0,1, 0,1,116, 0,0,0,1, 0,0,0,0, 0,0, 0,0,0,0,0,0,0,hwm, 0,0,0,34,
+   0,0,0,0,0,0,0,0, 0,0,0,22, 0,0,0,0, 1, 0, 0,0,0,0,0,0,0,1, 255,255,255,255, 0,0,0,0]
+
+/-- the same header at the watermark with an empty message set -/
+def emptySetFetchBody : KV.Bytes :=
+  [0,0,0,0, 0,0,0,1, 0,1,116, 0,0,0,1, 0,0,0,0, 0,0, 0,0,0,0,0,0,0,0, 0,0,0,0]
+
+/-- (*Conn).ReadBatchWith: the failures in front of the exchange return a Batch that carries only the error; once
+waitResponse has taken the frame the Batch holds the read lock (ConnMux: `rlock` stays with the call until `finish`),
+whatever the header says; the message-set reader is created exactly when `BatchBytes.openBatch` creates one -/
+def readBatchWithModelRow (sc : List String) : List String :=
+  if flag sc "seekFailed" then ["seek", "return:batchWithErrorOnly"]
+  else if flag sc "negotiateFailed" then ["seek", "negotiate", "return:batchWithErrorOnly"]
+  else if flag sc "requestFailed" then ["seek", "negotiate", "doRequest", "return:batchWithErrorOnly"]
+  else if flag sc "waitFailed" then ["seek", "negotiate", "doRequest", "waitResponse", "return:batchWithErrorOnly"]
+  else
+    match run [⟨1, 0⟩] [.write 0 true 1, .take 1] with
+    | none => ["model: no such state"]
+    | some s0 =>
+      let wm := flag sc "atWatermark"
+      let body : KV.Bytes :=
+        if flag sc "headerFailed" then [0, 0]
+        else if wm && !flag sc "setNotEmpty" then emptySetFetchBody
+        else sampleFetchBody (if wm then 0 else 5)
+      let s1 : Reader.RS := ⟨body, body.length⟩
+      let b := BatchBytes.openBatch false 2 0 s1
+      -- at the watermark the message set, if any, is skipped at once: the model's reader state moves to the frame end
+      let skipped := b.empty && b.rs.sz == 0 && b.rs.inp.isEmpty && body.length > emptySetFetchBody.length
+      ["seek", "negotiate", "doRequest", "waitResponse", "readHeader", "drainOnKafkaError"] ++
+      (if skipped then ["skipSetAtWatermark"] else []) ++
+      (if b.hasMsgs && !b.empty then ["newMessageSetReader"] else []) ++
+      [if s0.rlock.isSome then "return:batchHoldingTheLock" else "return:batchWithErrorOnly"]
+
 /-- the extracted decision tables are the models' transitions -/
 theorem flow_tables_are_the_models :
+    Gen.MuxFacts.apiVersionsFlow.all (fun (sc, eff) => apiVersionsModelRow sc == eff) = true ∧
+    Gen.MuxFacts.readBatchWithFlow.all (fun (sc, eff) => readBatchWithModelRow sc == eff) = true ∧
     Gen.MuxFacts.releaseConnFlow.all (fun (sc, eff) => releaseConnModelRow sc == eff) = true ∧
     Gen.MuxFacts.grabConnFlow.all (fun (sc, eff) => grabConnModelRow sc == eff) = true ∧
     Gen.MuxFacts.removeConnFlow.all (fun (sc, eff) => removeConnModelRow sc == eff) = true ∧
